@@ -337,7 +337,7 @@ def run(ctx):
         from rules import protocol
         # the count the end-of-life decision and text use is the number of HANDLED calls: a call that ends in a
         # fatal report must not have been counted
-        protocol.report(ctx, tu, lambda r: r in ("C01.b", "C05.d.2", "C03.d"))
+        protocol.report(ctx, tu, lambda r: True)   # the whole step protocol is a premise of this property
         c04h(ctx, tu)
         units.append({"unit": tu.name, "functions": len(tu.fns)})
     ctx.extra["units"] = units
